@@ -432,6 +432,12 @@ int main(int argc, char **argv) {
       g.scaleShift = (int)r.pick(std::vector<int>{0, 0, 3, vs / 2, vs});
     }
     Circuit base = vg::genCircuit(r, g);
+    if (argi("translate", 0)) {
+      // far from the origin: 2^24 is where single-precision floats stop representing every integer
+      static const std::vector<int> shifts = {0, (1 << 24) + 1, (1 << 25) + 3, -(1 << 25) - 5, 1 << 27};
+      vg::Rng tr(s ^ 0x9e3779b97f4a7c15ULL);
+      vg::translateCircuit(base, tr.pick(shifts), tr.pick(shifts));
+    }
     uint64_t pseed = r.u() >> 1;
     vg::Rng pr(pseed);
     ColoquinteParameters p = vg::genParams(pr, po);
